@@ -21,6 +21,9 @@ static std::vector<size_t> all_lengths(bool thorough) {
     for (int i = 0; i < (thorough ? 9 : 7); i++) v.push_back(comps[i]);
     for (int i = 0; i < (thorough ? 8 : 6); i++) v.push_back(odds[i]);
     for (int i = 0; i < (thorough ? 8 : 6); i++) v.push_back(twoodd[i]);
+    // scale: transform lengths beyond 2^14 (blocked loops over the half spectrum) and beyond 2^16 (16-bit offsets of a bunch in the train)
+    v.push_back(17408); v.push_back(32768); v.push_back(70000);
+    if (thorough) v.push_back(131072);
     return v;
 }
 
@@ -55,6 +58,17 @@ static Setup gen_setup(Rng& r, bool single, bool thorough) {
     s.spacing = (nbuckets > 1) ? s.n + (uint32_t)r.range(0, 2 * s.n) : (r.chance(0.5) ? 0 : s.n);
     size_t need = (size_t)s.buckets.front() * s.spacing + s.n;
     s.N = pick_length(r, need, thorough);
+    // scale: one train in twenty sits in a ring of more than 256 buckets, some of it beyond cell 65536 of a long transform
+    if (!single && r.chance(0.05)) {
+        s.nb = (uint32_t)r.range(2, 4); s.n = (uint32_t)r.range(8, 24);
+        s.spacing = s.n + (uint32_t)r.range(0, 40);
+        uint32_t top = (uint32_t)(66000 / s.spacing) + (uint32_t)r.range(1, 20);     // bucket number > 256 and offset > 65536
+        s.buckets.clear(); s.buckets.push_back(top);
+        for (uint32_t k = 1; k < s.nb; k++) s.buckets.push_back((uint32_t)((s.nb - 1 - k) * (top / s.nb)) + (k + 1 == s.nb ? 0 : (uint32_t)r.range(0, 3)));
+        s.N = thorough && r.chance(0.5) ? 131072 : 70000;
+        if ((size_t)top * s.spacing + s.n > s.N) s.N = 131072 > (size_t)top * s.spacing + s.n && thorough ? 131072 : s.N;
+        if ((size_t)top * s.spacing + s.n > s.N) { top = (uint32_t)((s.N - s.n) / s.spacing); s.buckets[0] = top; }
+    }
     s.Ib = r.logu(1e-5, 1e-1); s.E0 = r.logu(5e8, 5e9); s.sE = r.logu(1e-4, 2e-3); s.dt = r.logu(1e-10, 1e-7);
     s.frev = r.logu(1e5, 1e7); s.revpart = s.frev * s.dt; s.L = r.uni(8, 16);
     return s;
